@@ -54,10 +54,19 @@ def generate(prop, rng, run, tier):
     if rng.random() < 0.15:
         weights["chart"] = 0
     if many_charts:
-        # many charts at once (counts random edit sequences rarely reach)
-        for _ in range(rng.randint(8, 30)):
-            seq.append({"op": "charts_append", "chart": gen.gen_chart_spec(rng, fmt, profile)})
-            nch += 1
+        # many charts at once (counts random edit sequences rarely reach); now and then more
+        # than a thousand tiny ones (deeper than Python's default recursion limit)
+        if rng.random() < 0.04:
+            tiny = {"from": "items", "items": [["NOTES", "0"]]} if fmt == "ssc" else \
+                {"from": "fields", "fields": ["a", "", "Easy", "1", "0", "0"]}
+            for _ in range(rng.randint(1050, 1400)):
+                seq.append({"op": "charts_append", "chart": tiny})
+                nch += 1
+            n = min(n, 3)
+        else:
+            for _ in range(rng.randint(8, 30)):
+                seq.append({"op": "charts_append", "chart": gen.gen_chart_spec(rng, fmt, profile)})
+                nch += 1
     after_save = False
     for _ in range(n):
         r = rng.random()
@@ -153,7 +162,9 @@ def _generate_c18(rng):
         else:
             attr = rng.choice(attrs)
             std, alias = ATTRS[kind][attr][0], None
-        value = rng.choice(["", "v%d" % rng.randint(0, 9), "x", "0.000=1.000", "a:b", "  "])
+        value = rng.choice(["", "v%d" % rng.randint(0, 9), "x", "0.000=1.000", "a:b", "  ", "a\\b",
+                            "..\\shared\\banner.png", "\\", "x//y", "a;b", " padded ", "150:150",
+                            "heavy", "l1\nl2", "\u00e9\u3042"])
         if kind == "smchart":
             opk = gen.wchoice(rng, [("get_attr", 2), ("set_attr", 3), ("del_attr", 1), ("get_key", 2),
                                     ("set_key", 3), ("del_key", 1), ("contains", 1), ("iter", 1),
@@ -176,7 +187,8 @@ def _generate_c18(rng):
                 op["key"] = alias
             else:
                 op["key"] = rng.choice(["X", "UNRELATED", std.lower(), "FREEZES", "NOTES2", "",
-                                        std.capitalize()])
+                                        std.capitalize(), "NOTEDATA", "NOTES", "VERSION", "ATTACKS",
+                                        "DISPLAYBPM", "._X", "A B"])
         if opk in ("set_attr", "set_key", "update"):
             op["value"] = value
         if opk == "move":
